@@ -42,10 +42,25 @@ func durableSuccess(o *ObjView) bool {
 // C09: after a crash, durably finished work is never executed again.
 type monC09 struct{}
 
+// storeRecoveryFirst: a store that implements storage.Recovery "must do some recovery operation before it can be used
+// after a failure" (CosmosDB reconciles its search index there, and the engine's own recovery picks the plans to resume
+// from exactly that index): the engine must not search, read or write through the vault before that pass has returned.
+func storeRecoveryFirst(x *Exec, prop string) {
+	if x.GV == nil || x.Mem["recfirst"] != nil {
+		return
+	}
+	if op := x.GV.UsedBeforeRecovery(); op != "" {
+		x.Mem["recfirst"] = true
+		x.Report(&Violation{Property: prop, Rule: "store-used-before-its-recovery-pass", Signature: "startup-order",
+			Msg: fmt.Sprintf("the engine issued %q through the vault before the store's own recovery pass (storage.Recovery) had run: what it resumes is decided on a store that was not reconciled yet", op)})
+	}
+}
+
 func (monC09) AtState(x *Exec) {
 	if _, ok := recoveryMode(x); !ok {
 		return
 	}
+	storeRecoveryFirst(x, "C09")
 	from, to := newEvents(x, "c09")
 	if from == to {
 		return
